@@ -449,7 +449,7 @@ def thr_refill_runs(ctx, binp):
         fps = rng.choice([3, 9])
         mn, preview = 1, rng.choice([0, 1])
         trig = [fps, 1, 2 * fps, 2][k % 4]
-        bucket_s, refill_s = rng.choice([2, 3]), rng.choice([1, 2])
+        bucket_s, refill_s = mn + preview + rng.choice([2, 3]), rng.choice([1, 2])    # room for more than one minimum-length recording
         settings = dict(min=mn, max=rng.choice([mn, mn + 3]), preview=preview, const=(k % 2 == 0), throttle=True, bucket="%ds" % bucket_s,
                         refill="%ds" % refill_s, motion=dict(FIXED_MOTION, **{"trigger-frames": trig}))
         w, h = 4, 3
